@@ -563,6 +563,8 @@ class Machine(Node):
                             break
                     
                     if out_edge_index_to_put is not None:
+                         # record the choice, as the blocking FIRST_AVAILABLE branch does
+                         self.stats["out_edge_selection"].append(self.out_edges.index(out_edge_index_to_put))
                          blocking_start_time = self.env.now
                          #self.check_thread_state_and_update_machine_state()
                          self.update_state_rep(self.env.now)
